@@ -10,6 +10,7 @@ Not decided: implies_lut, literal/gate counts, Cube::all (iterator adaptor chain
 from .. import facts as F
 from ..harness import *
 from ..cubemodel import *
+from ..absint import new_cell
 
 LEVEL = "other"
 
@@ -201,6 +202,7 @@ def run(chk):
         chk.add("C12.Z", "Cube::zero is contradictory", PROVED if zc else REFUTED, "")
     except (Undecided, IndexError) as e:
         chk.undecided("C12.M", "Cube::one / Cube::zero", str(e))
+    small(chk, facts, cm)
     chk.notes["explanation"] = "lane abstraction: every condition/result of the cube operations is a uniform per-lane predicate/function; compared with the semantic specification on all non-empty sets of lane values; shift constructors in 32-bit word mode"
 
 
@@ -242,3 +244,163 @@ def decide_cube(cm, outs, names, U, spec):
             if (g[0][u], g[1][u]) != want[u]:
                 return REFUTED, "lane value %s (%s): result literals %s, specification says %s" % (u, ",".join(names), (g[0][u], g[1][u]), want[u])
     return PROVED, ""
+
+
+# ------------------------------------------------------------------------------------------
+# small-domain rules (windows of variables): counts, slices of variables, implicants, enumeration
+# ------------------------------------------------------------------------------------------
+def window_cube(cm, name, window):
+    f = [None, None]
+    f[cm.pi] = W(32, bits=[B.atom("%s.P[%d]" % (name, i)) if i in window else ZERO for i in range(32)])
+    f[cm.ni] = W(32, bits=[B.atom("%s.N[%d]" % (name, i)) if i in window else ZERO for i in range(32)])
+    return Agg("adt", CUBE, 0, f)
+
+
+def small(chk, facts, cm):
+    from ..stdmodel import drain
+    from ..absint import Frame
+    env = Env(facts)
+    KD = env.kinds["dyn"]
+    # ---- literal and gate counts
+    for window in ((0, 1, 2), (29, 30, 31), (0, 15, 31)):
+        atoms = ["c.P[%d]" % i for i in window] + ["c.N[%d]" % i for i in window]
+        contradictory = lambda d, w=window: any(d["c.P[%d]" % i] and d["c.N[%d]" % i] for i in w)
+        for mname, spec in (("num_lits", lambda d: sum(d.values())), ("num_gates", lambda d: max(sum(d.values()), 1) - 1)):
+            b = cm.method(mname)
+            key = "Cube::%s over variables %s" % (mname, list(window))
+            try:
+                it = Interp(facts)
+                st = State()
+                outs = it.call_body(b, [arg_for(b["sig"]["inputs"][0], window_cube(cm, "c", window), st)], st, {})
+                v, d = decide_by_enumeration(outs, atoms, lambda dd, s=spec: "skip" if contradictory(dd) else s(dd))
+            except Undecided as e:
+                v, d = UNDECIDED, e.cause
+            chk.add("C12.N", key, v, d, where=where_of(b))
+    for mname, want in (("num_lits", 0), ("num_gates", 0)):
+        b = cm.method(mname)
+        try:
+            it = Interp(facts)
+            st = State()
+            outs = it.call_body(b, [arg_for(b["sig"]["inputs"][0], cm.zero, st)], st, {})
+            o, v, d = single_return(outs)
+            if o is not None:
+                v, d = (PROVED, "") if isinstance(o.value, W) and o.value.val == want else (REFUTED, "%s of the zero cube is %r" % (mname, o.value))
+        except Undecided as e:
+            v, d = UNDECIDED, e.cause
+        chk.add("C12.N", "Cube::%s of the zero cube" % mname, v, d, where=where_of(b))
+    # ---- pos_vars / neg_vars enumerate exactly the literals, increasing
+    for mname, fld in (("pos_vars", "P"), ("neg_vars", "N")):
+        b = cm.method(mname)
+        window = (0, 3, 31)
+        key = "Cube::%s over variables %s" % (mname, list(window))
+        try:
+            it = Interp(facts, max_paths=4096)
+            it.prune = True
+            st = State()
+            cell = new_cell()
+            st.mem[cell] = window_cube(cm, "c", window)
+            outs = it.call_body(b, [Ptr(cell, ())], st, {})
+            o, v, d = single_return(outs)
+            if o is not None:
+                fr = Frame(b, b["mir"], {}, 0)
+                v, d = PROVED, ""
+                n_paths = 0
+                for s1, p1, items in drain(it, fr, o.state, o.pc, o.value):
+                    s_, w_ = pc_status(p1)
+                    if s_ == "unsat":
+                        continue
+                    if s_ != "sat":
+                        v, d = UNDECIDED, "path not decided"
+                        break
+                    n_paths += 1
+                    got = [x.val if isinstance(x, W) else None for x in items]
+                    want = [i for i in window if w_.get("c.%s[%d]" % (fld, i))]
+                    if any(("c.%s[%d]" % (fld, i)) not in w_ for i in window):
+                        v, d = UNDECIDED, "path does not fix the literal set"
+                        break
+                    if got != want:
+                        v, d = REFUTED, "%s yields %s for the literal set %s" % (mname, got, want)
+                        break
+                if v == PROVED and n_paths != 8:
+                    v, d = UNDECIDED, "%d paths" % n_paths
+        except Undecided as e:
+            v, d = UNDECIDED, e.cause
+        chk.add("C12.N", key, v, d, where=where_of(b))
+    # ---- from_vars on slices of symbolic variables (two bits each: variables 0..3)
+    b = cm.method("from_vars")
+    for lp, ln in ((1, 1), (2, 1), (0, 2), (1, 2)):
+        key = "Cube::from_vars with %d positive and %d negative symbolic variables" % (lp, ln)
+        try:
+            it = Interp(facts, max_paths=1024)
+            st = State()
+
+            def mkslice(prefix, k):
+                cell = new_cell()
+                st.mem[cell] = Arr([W(64, bits=[B.atom("%s%d[0]" % (prefix, j)), B.atom("%s%d[1]" % (prefix, j))] + [ZERO] * 62) for j in range(k)])
+                return Ptr(cell, (), (0, k))
+            outs = it.call_body(b, [mkslice("p", lp), mkslice("q", ln)], st, {})
+            atoms = ["p%d[%d]" % (j, bb) for j in range(lp) for bb in (0, 1)] + ["q%d[%d]" % (j, bb) for j in range(ln) for bb in (0, 1)]
+
+            def spec(dd):
+                P = N = 0
+                for j in range(lp):
+                    P |= 1 << (dd["p%d[0]" % j] + 2 * dd["p%d[1]" % j])
+                for j in range(ln):
+                    N |= 1 << (dd["q%d[0]" % j] + 2 * dd["q%d[1]" % j])
+                if P & N:
+                    return (cm.pos(cm.zero).val, cm.neg(cm.zero).val)
+                return (P, N)
+            v, d = decide_by_enumeration(outs, atoms, spec, project=lambda g: (g[2][cm.pi], g[2][cm.ni]))
+        except Undecided as e:
+            v, d = UNDECIDED, e.cause
+        chk.add("C12.V", key, v, d, where=where_of(b))
+    # ---- implies_lut: the cube is an implicant of f
+    b = cm.method("implies_lut")
+    for n in (0, 1, 2):
+        window = tuple(range(n))
+        key = "Cube::implies_lut n=%d" % n
+        try:
+            it = Interp(facts, max_paths=4096)
+            it.prune = True
+            st = State()
+            cube = window_cube(cm, "c", window)
+            lut = KD.place(st, KD.mk(st, n, sym_words(n, "a")))
+            outs = it.call_body(b, [arg_for(b["sig"]["inputs"][0], cube, st), lut], st, {})
+            atoms = ["c.P[%d]" % i for i in window] + ["c.N[%d]" % i for i in window] + ["a[%d]" % p for p in range(1 << n)]
+
+            def spec(dd):
+                if any(dd["c.P[%d]" % i] and dd["c.N[%d]" % i] for i in window):
+                    return "skip"
+                for m in range(1 << n):
+                    val = all((not dd["c.P[%d]" % i] or (m >> i) & 1) and (not dd["c.N[%d]" % i] or not (m >> i) & 1) for i in window)
+                    if val and not dd["a[%d]" % m]:
+                        return 0
+                return 1
+            v, d = decide_by_enumeration(outs, atoms, spec)
+        except Undecided as e:
+            v, d = UNDECIDED, e.cause
+        chk.add("C12.I", key, v, d, where=where_of(b))
+    # ---- Cube::all(n): exactly the 3^n non-contradictory cubes over n variables, each once (folded: n concrete)
+    b = cm.method("all")
+    for n in (0, 1, 2, 3):
+        key = "Cube::all(%d)" % n
+        try:
+            it = Interp(facts, max_paths=64, max_steps=20000000)
+            st = State()
+            outs = it.call_body(b, [wconst(64, n)], st, {})
+            o, v, d = single_return(outs)
+            if o is not None:
+                fr = Frame(b, b["mir"], {}, 0)
+                paths = drain(it, fr, o.state, o.pc, o.value)
+                if len(paths) != 1:
+                    v, d = UNDECIDED, "%d paths" % len(paths)
+                else:
+                    got = [(cm.pos(c).val, cm.neg(c).val) for c in paths[0][2]]
+                    want = sorted((p_, q_) for p_ in range(1 << n) for q_ in range(1 << n) if not p_ & q_)
+                    if sorted(got) == want and len(got) == 3 ** n:
+                        v, d = PROVED, ""
+                    else:
+                        v, d = REFUTED, "Cube::all(%d) yields %d cubes (%d distinct), expected the %d non-contradictory ones" % (n, len(got), len(set(got)), 3 ** n)
+        except Undecided as e:
+            v, d = UNDECIDED, e.cause
+        chk.add("C12.A", key, v, d, where=where_of(b))
